@@ -341,5 +341,6 @@ func (sp *SigPool) Slice() []BlockSignature {
 	for _, bs := range sp.items {
 		res = append(res, bs)
 	}
+	simOrderSigs(res)
 	return res
 }
